@@ -2,6 +2,9 @@
 //
 //   harness lines            read cases on stdin, one output line per case
 //   harness threads N ITERS  N threads x ITERS rounds of TimeStamp creation/renewal/copy
+//   harness counter START N ITERS   (needs -DC19_PRIV) store START into the private static counter
+//                            TimeStamp::global first, then the same run: probes the counter around
+//                            2^31, 2^32, 2^63 (a narrowed counter repeats or decreases there)
 //
 // Case lines (same canonical form as ocaml/C19/driver.ml):
 //   H op op ...      ops: nb:B  db:B  no:O:B  do:O  n:B  p:O
@@ -276,6 +279,23 @@ static int runThreads(int nthreads, long iters)
 int main(int argc, char **argv)
 {
   std::string mode = argc > 1 ? argv[1] : "lines";
+  if (mode == "counter") {
+#ifdef C19_PRIV
+    unsigned long long start = argc > 2 ? std::strtoull(argv[2], nullptr, 10) : 0;
+    int n = argc > 3 ? std::atoi(argv[3]) : 1;
+    long iters = argc > 4 ? std::atol(argv[4]) : 16;
+    TimeStamp::global.store((size_t)start);
+    TimeStamp first;
+    if (size_t(first) < (size_t)start) {
+      std::cout << "FAIL first stamp after the counter was set to " << start << " is " << size_t(first) << " (smaller than the counter)\n";
+      return 0;
+    }
+    return runThreads(n, iters);
+#else
+    std::cout << "SKIP no access to the private counter\n";
+    return 0;
+#endif
+  }
   if (mode == "threads") {
     int n = argc > 2 ? std::atoi(argv[2]) : 4;
     long iters = argc > 3 ? std::atol(argv[3]) : 100000;
